@@ -34,6 +34,11 @@ func newEventStream() Producer {
 func (e *eventStream) Receive(c *Context) {
 	switch msg := c.Message().(type) {
 	case eventSub:
+		// the event stream is not its own subscriber: it would forward every
+		// event to itself again, for ever.
+		if msg.pid != nil && msg.pid.Equals(c.PID()) {
+			return
+		}
 		e.subs[pidKey{address: msg.pid.GetAddress(), id: msg.pid.GetID()}] = msg.pid
 	case eventUnsub:
 		delete(e.subs, pidKey{address: msg.pid.GetAddress(), id: msg.pid.GetID()})
